@@ -31,7 +31,7 @@ M = Monitor(
           "target class: strictly inside (depth>=1e-3*extent), on a facet, gamut corner, black / white / single saturated source, "
           "outside; error mode raise/ignore/warn; spaced solutions n in 2..10. non-trivial = surplus>=2 or lb>0 or a boundary "
           "target. distinct = hash of rounded inputs"),
-    budget={"quick": (2000, 60), "thorough": (80000, 1500)},
+    budget={"quick": (2100, 60), "thorough": (84000, 1500)},
     anchors=[("dreye.api.convex", "range_of_solutions"), ("dreye.api.convex", "_range_of_solutions"),
              ("dreye.api.convex", "_spaced_solutions"), ("dreye.api.estimator", "ReceptorEstimator.range_of_solutions")],
     deciding=["convex.range_of_solutions", "convex._range_of_solutions", "convex._spaced_solutions",
@@ -88,7 +88,7 @@ def _call(c, inp, B, error, nsp):
         return c.call(convex.range_of_solutions, B.copy(), inp["A"].copy(), inp["lb"], inp["ub"], K=Karg,
                       baseline=inp["baseline"], error=error, n=nsp, _where="range_of_solutions",
                       _raises_ok=(ValueError,))
-    est = c.call(gen.make_estimator, dreye, inp, _where="ReceptorEstimator+register_system")
+    est = gen.live_or_new(c, dreye, inp)
     return c.call(est.range_of_solutions, B.copy(), error=error, n=nsp, _where="ReceptorEstimator.range_of_solutions",
                   _raises_ok=(ValueError,))
 
@@ -121,6 +121,9 @@ def chk_case(inp, c):
             out = _call(c, inp, B, error, nsp)
         except UnderTestRaised as e:
             raised = e
+            if isinstance(e.exc, np.linalg.LinAlgError):
+                c.fail(f"range_of_solutions raised LinAlgError: {str(e.exc)[:80]}",
+                       mechanism="raise:LinAlgError:" + ("spaced" if nsp is not None else "range"))
     warned = any("outside" in str(w.message) for w in wl)
     ncand = [f for kk, f in c.events if kk == "range.candidates"]
 
@@ -250,4 +253,21 @@ def chk_case(inp, c):
     c.note("candidates", ncand[:1])
 
 
-M.add("range_vs_lp", gen_case, chk_case, weight=1, min_held=300)
+M.add("range_vs_lp", gen_case, chk_case, weight=6, min_held=300)
+
+
+def gen_rereg(rng, i):
+    s = gen_case(rng, i)
+    s["rereg_seed"] = int(rng.integers(0, 2 ** 31 - 1))
+    s["api"] = "estimator"
+    s["two_rows"] = False      # the extra row is only known to be inside the gamut of the original system
+    return s
+
+
+def chk_rereg(inp, c):
+    """The range is computed from the CURRENTLY registered values: query, change one registration on the same estimator,
+    query again and judge the second answer against the new system."""
+    gen.rereg_check(c, dreye, inp, lambda est: est.range_of_solutions(inp["b"], error="ignore"), chk_case)
+
+
+M.add("range_after_reregistration", gen_rereg, chk_rereg, weight=1, min_held=40)
